@@ -567,7 +567,7 @@ def r_stmt(st, style=PLAIN, indent=""):
     elif k == "link":
         body = style.caseflip(".link") + style.sp(" ") + r_expr(st.expr, style)
     elif k == "simple":
-        body = style.caseflip(st.d) + ((" " + ", ".join(st.args)) if st.args else "")
+        body = style.caseflip(st.d) + ((style.sp(" ") + ", ".join(st.args)) if st.args else "")
     elif k == "include":
         body = style.caseflip(".include") + f' "{getattr(st, "spell", None) or st.path}"'
     elif k == "insert":
